@@ -222,7 +222,8 @@ class Scn:
 
     # -- derived
     def is_async(self):
-        return any(c.coro and c.wrap != "lazy" for c in self.cbs if self._cb_live_at_ctor(c) and self._cb_bound(c))
+        return any(c.coro and c.wrap != "lazy" and c.style not in ("attr", "evref")
+                   for c in self.cbs if self._cb_live_at_ctor(c) and self._cb_bound(c))
 
     def is_chain(self):
         """some callback is an event reference: trigger identity is then taken from the TriggerData object (the
@@ -347,6 +348,9 @@ def normalize(scn: Scn):
     """A plain function that returns an awaitable is only meaningful on the async engine, which the library
     selects from the *coroutine functions* it resolved at construction: without one, such callbacks become
     ordinary coroutine functions (keeps generated, mutated and shrunk scenarios within legal usage)."""
+    for c in scn.cbs:      # a plain attribute / an event used as a callback is never a coroutine function
+        if c.style in ("attr", "evref") and (c.coro or c.yields or c.wrap):
+            c.coro, c.yields, c.wrap = False, 0, ""
     if not scn.is_async():
         for c in scn.cbs:
             if c.wrap == "lazy":
